@@ -28,6 +28,7 @@ CONFIGS_T = CONFIGS_Q + [{"opset": 26}, {"opset": 21, "enable_double_precision":
 def list_jobs(tier):
     reg = corpus.registry_ids(include_f64=False)
     progs = families.ids("A5", tier) + families.ids("A6", tier) + families.ids("A4", tier)[::2] + families.ids("A8", tier)[::5] + families.ids("A7", tier)[::6]
+    progs += families.ids("A1", tier)[::3] + families.ids("A2", tier)[::2]
     progs += reg[::7] if tier == "quick" else reg[::2]
     cfgs = CONFIGS_Q if tier == "quick" else CONFIGS_T
     jobs = []
@@ -212,7 +213,7 @@ def main(tier):
         if r.get("status") == "violation":
             ci, pid = r["job"].split("|", 1)
             w = r.get("witness") or {}
-            violations.append({"key": f"{common.base_pid(pid)}|cfg{ci}|{r.get('kind')}|{','.join(r.get('cls') or [])}", "what": f"{pid} {r.get('config')}: {w.get('why')}", "payload": {"job": r["job"], "witness": w}})
+            violations.append({"key": f"{common.finding_pid(pid)}|{r.get('kind')}|{','.join(r.get('cls') or [])}", "what": f"{pid} {r.get('config')}: {w.get('why')}", "payload": {"job": r["job"], "witness": w}})
     counts = {}
     for r in results:
         counts[r.get("status")] = counts.get(r.get("status"), 0) + 1
